@@ -95,8 +95,20 @@ static void check_all(const uint8_t *key, int len, uint32_t seed, const char *wh
         if (g != exp[i]) FAIL(nm[i], "model:value", shape, "%s: got 0x%08x, reference 0x%08x", where, g, exp[i]);
     }
 }
+/* the public mix macro is one statement wherever a statement may stand */
+static void mix_macro_check(void)
+{
+    static int done; if (done) return; done = 1;
+    for (int on = 0; on < 2; on++) {
+        spif_uint32_t a = 0x11111111u, b = 0x22222222u, c = 0x33333333u; uint32_t ra = a, rb = b, rc = c;
+        if (on) SPIFHASH_JENKINS_MIX(a, b, c);
+        if (on) { MIX(ra, rb, rc); }
+        if (a != ra || b != rb || c != rc) FAIL("SPIFHASH_JENKINS_MIX", "model:value", "mix macro", "as the body of an if whose condition is %s the macro left (0x%08x,0x%08x,0x%08x), the published mix gives (0x%08x,0x%08x,0x%08x)", on ? "true" : "false", a, b, c, ra, rb, rc);
+    }
+}
 static void case_fn(uint64_t idx, void *ctx)
 {
+    mix_macro_check();
     hc_t c; (void) ctx; decode(idx, &c);
     uint8_t ref[512]; fill(ref, c.len, c.pat);
     uint32_t seed = SEEDS[c.seed];
@@ -155,6 +167,27 @@ static void big_case(uint64_t idx, void *ctx)
     mc_nontrivial();
     mc_outcome(((uint64_t) exp[0] << 32) | exp[4]);
 }
+/* keys lying across an address that is a multiple of 4 GiB (address arithmetic in 32 bits wraps there) */
+static uint8_t *g_4g;                  /* the byte at the boundary; one page on each side is mapped */
+static const int BLEN[] = { 1, 11, 12, 13, 23, 24, 25, 36, 40 };
+#define NBLEN ((int) (sizeof BLEN / sizeof BLEN[0]))
+static void b4_desc(uint64_t idx, void *ctx, char *b, size_t n) { (void) ctx; int len = BLEN[idx / 64], off = (int) (idx % 64) - 48; snprintf(b, n, "all six hashes on a %d-byte key starting %d bytes %s an address that is a multiple of 4 GiB", len, off < 0 ? -off : off, off < 0 ? "before" : "after"); }
+static void b4_case(uint64_t idx, void *ctx)
+{
+    int len = BLEN[idx / 64], off = (int) (idx % 64) - 48; (void) ctx;
+    if (!g_4g) return;
+    uint8_t ref[64]; for (int i = 0; i < len; i++) ref[i] = (uint8_t) (i * 37 + 11);
+    char shape[64]; snprintf(shape, sizeof shape, "%s", (off < 0 && off + len > 0) ? "key crosses a 4 GiB boundary" : "key next to a 4 GiB boundary"); mc_set_shape(shape);
+    uint32_t seed = SEEDS[(idx / 7) % 4];
+    uint32_t exp[5] = { ref_lookup2(ref, (uint32_t) len, seed), 0, ref_rotating(ref, (uint32_t) len, seed), ref_oaat(ref, (uint32_t) len, seed), ref_fnv1a(ref, (uint32_t) len, seed) };
+    exp[1] = exp[0];
+    uint8_t *k = g_4g + off; memcpy(k, ref, (size_t) len);
+    check_all(k, len, seed, "key at a 4 GiB boundary", shape, exp);
+    if (len % 4 == 0) { uint32_t w[16]; memcpy(w, ref, (size_t) len); uint32_t e = ref_lookup2_words(w, (uint32_t) (len / 4), seed), g = spifhash_jenkins32(k, (spif_uint32_t) (len / 4), seed);
+        if (g != e) FAIL("spifhash_jenkins32", "model:value", shape, "got 0x%08x, reference 0x%08x", g, e); }
+    mc_nontrivial();
+    mc_outcome(((uint64_t) exp[0] << 32) | exp[4]);
+}
 /* all 1- and 2-byte keys */
 static void small_desc(uint64_t idx, void *ctx, char *b, size_t n) { (void) ctx; snprintf(b, n, idx < 256 ? "all hashes on the 1-byte key %02llx, 4 seeds" : "all hashes on the 2-byte key %04llx, 4 seeds", (unsigned long long) (idx < 256 ? idx : idx - 256)); }
 static void small_case(uint64_t idx, void *ctx)
@@ -181,9 +214,14 @@ int main(int argc, char **argv)
     g_page = sysconf(_SC_PAGESIZE);
     g_guard = mmap(NULL, (size_t) g_page * 3, PROT_READ | PROT_WRITE, MAP_PRIVATE | MAP_ANONYMOUS, -1, 0);
     mprotect(g_guard, (size_t) g_page, PROT_NONE); mprotect(g_guard + 2 * g_page, (size_t) g_page, PROT_NONE);
-    mc_info("alphabet", "length 0..%d x alignment 0..7 x seeds {0,1,0xf721b64d,0xffffffff} x patterns {all 00, all FF, counting, each single byte = 0x01 / 0x80}; jenkins32 on keys whose length is a multiple of 4 (every alignment); long keys of 4080..20004 bytes x 8 alignments; %s",
+    mc_info("alphabet", "length 0..%d x alignment 0..7 x seeds {0,1,0xf721b64d,0xffffffff} x patterns {all 00, all FF, counting, each single byte = 0x01 / 0x80}; jenkins32 on keys whose length is a multiple of 4 (every alignment); long keys of 4080..20004 bytes x 8 alignments; keys lying across an address that is a multiple of 4 GiB; %s",
             MAXLEN, mc_thorough() ? "all 1- and 2-byte keys" : "all 1-byte keys");
     mc_e2_level("hash", MAXLEN, count_for(MAXLEN), case_fn, desc, NULL);
+    { static const uintptr_t at[] = { 0x200000000000ULL, 0x300000000000ULL, 0x100100000000ULL, 0x500000000000ULL };
+      for (unsigned i = 0; i < 4 && !g_4g; i++) { void *p = mmap((void *) (at[i] - (uintptr_t) g_page), (size_t) g_page * 2, PROT_READ | PROT_WRITE, MAP_PRIVATE | MAP_ANONYMOUS | MAP_FIXED_NOREPLACE, -1, 0);
+          if (p == (void *) (at[i] - (uintptr_t) g_page)) g_4g = (uint8_t *) at[i]; else if (p != MAP_FAILED) munmap(p, (size_t) g_page * 2); }
+      if (!g_4g) mc_info("boundary", "no address that is a multiple of 4 GiB could be mapped: the boundary cases are skipped");
+      else mc_e2_level("boundary_4g", 1, (uint64_t) NBLEN * 64, b4_case, b4_desc, NULL); }
     mc_e2_level("longkeys", 20004, (uint64_t) NBIGLEN * 16, big_case, big_desc, NULL);
     mc_e2_level("smallkeys", mc_thorough() ? 2 : 1, mc_thorough() ? 256 + 65536 : 256, small_case, small_desc, NULL);
     return mc_finish();
